@@ -471,7 +471,7 @@ func runC08(c *run.Ctx) {
 		})
 	}
 	// 2. law oracle + reference parser on random tables and trees
-	nt := c.Pick(300, 6000)
+	nt := c.Pick(300, 15000)
 	per := c.Pick(120, 300)
 	for ti := 0; ti < nt; ti++ {
 		if !c.Mine(ti) {
@@ -566,7 +566,7 @@ func runC08(c *run.Ctx) {
 		})
 	}
 	// 4. malformed input: token-level mutations of valid renderings
-	for i := 0; i < c.Pick(40000, 800000); i++ {
+	for i := 0; i < c.Pick(40000, 2500000); i++ {
 		if !c.Mine(i) {
 			continue
 		}
